@@ -302,6 +302,12 @@ def run(ctx: Ctx) -> None:
         os.environ.get('VERIF_BUDGET_SCALE', '1'))   # development aid
     items = plan(ctx)
     litems = plan_long(ctx)
+    only = os.environ.get('VERIF_FAMILIES')          # development aid
+    if only:
+        keep = only.split(',')
+        items = [i for i in items if i[0] in keep]
+        litems = [i for i in litems if i[0] in keep]
+        ctx.cap('VERIF_FAMILIES=' + only + ': families restricted by hand')
     fails: dict[str, list] = {}
     fam: dict[str, dict] = {}
     per: dict[str, dict] = {}
